@@ -10,6 +10,9 @@
      pool units: sub (1 atto) | tiny | half | third | all | over (holding + 1 atto) |
                  last (exactly what the user's last contribution minted - the round trip)
    What the real pool did is recorded and decided by TracePools.tla.
+   Mode "edge": the FULL product (pool configuration) x (pool state: normal with two holders | fresh | fully
+   redeemed | ownerless reserves | one reserve emptied) x (every operation with every amount class) - exhaustive,
+   used by the quick tier too: nothing at a boundary is left to the random draw.
    Mode "sim": run with -simulate (seeded); an operation is chosen in two steps (kind, then
    arguments) so that the simulator's uniform choice among successors does not drown redemptions
    in the much larger set of contributions.  Mode "pairs": exhaustive, reduced alphabet.      *)
@@ -17,7 +20,7 @@ EXTENDS Integers, Sequences, FiniteSets, TLC, Json
 CONSTANTS K, Mode
 VARIABLES pool, hist, pending, gave, done
 gvars == <<pool, hist, pending, gave, done>>
-Sim == Mode = "sim"
+Sim == Mode # "pairs"          \* "sim" and "edge" use the full class alphabet
 ResClasses == IF Sim THEN {"sub", "tiny", "mid", "eq", "third", "part", "x1e6", "max", "bal"}
               ELSE {"sub", "mid", "eq", "part", "x1e6", "max"}
 UnitClasses == IF Sim THEN {"sub", "tiny", "half", "third", "all", "over", "last"}
@@ -59,7 +62,31 @@ Direct == /\ ~done /\ Len(hist) < K
                 /\ hist' = Append(hist, o)
                 /\ gave' = IF o.op = "contribute" THEN gave \cup {o.u} ELSE gave
           /\ UNCHANGED <<pool, pending, done>>
-GNext == IF Sim THEN Pick \/ Fill \/ Finish ELSE Direct \/ Finish
+\* ---- Mode "edge"
+C(u, c) == [op |-> "contribute", u |-> u, amt |-> [r \in 1..N |-> c]]
+PrefixOps(pf) == CASE pf = "normal" -> <<C(1, "mid"), C(2, "part")>>
+                   [] pf = "fresh" -> <<>>
+                   [] pf = "drained" -> <<C(1, "mid"), [op |-> "redeem", u |-> 1, amt |-> "all"]>>
+                   [] pf = "orphan" -> <<[op |-> "pdeposit", r |-> 1, amt |-> "mid"]>>
+                   [] pf = "onesided" -> <<C(1, "mid"), [op |-> "pwithdraw", u |-> 1, r |-> 1, amt |-> "all", exact |-> FALSE]>>
+MixedEdge == {[r \in 1..N |-> IF r = 1 THEN p[1] ELSE p[2]] : p \in {<<"mid", "sub">>, <<"sub", "x1e6">>, <<"max", "sub">>, <<"eq", "third">>, <<"mid", "zero">>, <<"zero", "mid">>}}
+RedeemOps(us, cs) == {[op |-> "redeem", u |-> u, amt |-> c] : u \in us, c \in cs}
+EdgeOps(pf) ==
+  IF pf = "normal"
+  THEN {[op |-> "contribute", u |-> u, amt |-> a] : u \in Users, a \in Uniform}
+       \cup {[op |-> "contribute", u |-> 2, amt |-> a] : a \in MixedEdge}
+       \cup {C(2, "zero"), [op |-> "pdeposit", r |-> 1, amt |-> "zero"]}
+       \cup RedeemOps(Users, UnitClasses \cup {"=0"}) \cup OpsOf("d") \cup OpsOf("w")
+  ELSE {C(2, c) : c \in {"sub", "mid", "max", "zero"}} \cup {[op |-> "contribute", u |-> 2, amt |-> [r \in 1..N |-> IF r = 1 THEN "mid" ELSE "sub"]]}
+       \cup RedeemOps({1}, {"sub", "all", "over"})
+       \cup {[op |-> "pwithdraw", u |-> 1, r |-> 1, amt |-> "all", exact |-> FALSE], [op |-> "pdeposit", r |-> N, amt |-> "sub"]}
+Edge == /\ ~done /\ hist = <<>>
+        /\ \E pf \in {"normal", "fresh", "drained", "orphan", "onesided"} : \E o \in EdgeOps(pf) : hist' = PrefixOps(pf) \o <<o>>
+        /\ UNCHANGED <<pool, pending, gave, done>>
+FinishEdge == /\ ~done /\ hist # <<>> /\ done' = TRUE /\ UNCHANGED <<pool, hist, pending, gave>>
+GNext == IF Mode = "sim" THEN Pick \/ Fill \/ Finish
+         ELSE IF Mode = "edge" THEN Edge \/ FinishEdge
+         ELSE Direct \/ Finish
 GSpec == GInit /\ [][GNext]_gvars
 Emit == done => PrintT(<<"B", ToJson([kind |-> pool.kind, divs |-> pool.divs, ops |-> hist])>>)
 =============================================================================
